@@ -3,8 +3,9 @@
    Build, newService, splitRoute, GetArgType, HasMethod, Call) and CallWithSerialize.
    No proofs in this file.
 
-   The model is of the code WITH hooks/C13-fix-once-guard.patch (F11: the completion function
-   of a request call runs at most once) and WITHOUT any repair of F4 (a completion function
+   The model is of the code WITH the once-guard of APIContainer.CallMethod (F11: the completion
+   function of a request call completes its caller at most once; hooks/C13-fix-once-guard*.patch)
+   and WITHOUT any repair of F4 (a completion function
    passed to a notify-shaped method: CallMethod logs and returns) - the existing test
    apientry.TestCall pins that behaviour.
 
@@ -204,7 +205,8 @@ Inductive beh :=
 | BPanic      (* panics before completing *)
 | BOkPanic    (* completes without error, then panics *)
 | BNever      (* returns without completing *)
-| BTwice.     (* completes twice, returns *)
+| BTwice      (* completes twice, returns *)
+| BOkBad.     (* completes without error but with a result that cannot be serialised, returns *)
 
 Inductive ser := SJson | SProto | SNil.
 Inductive dres := DOk (v : Z) | DBad.        (* serializer.Unmarshal into a fresh value of a type *)
@@ -226,15 +228,16 @@ Definition decode (dec : list (Z * dres)) (tid : Z) : dres :=
 Definition check_invoke (cb : bool) (err : bool) : list ev := if cb then [EvComplete err] else [].
 
 (* what the code of a request handler does with the completion function it is given:
-   (completions it attempts, in order; does it then panic) *)
-Definition req_script (b : beh) : list bool * bool :=
+   (completions it attempts, in order, as (error?, result cannot be serialised?); does it then panic) *)
+Definition req_script (b : beh) : list (bool * bool) * bool :=
   match b with
-  | BOk => ([false], false)
-  | BErr => ([true], false)
+  | BOk => ([(false, false)], false)
+  | BErr => ([(true, false)], false)
   | BPanic => ([], true)
-  | BOkPanic => ([false], true)
+  | BOkPanic => ([(false, false)], true)
   | BNever => ([], false)
-  | BTwice => ([false; false], false)
+  | BTwice => ([(false, false); (false, false)], false)
+  | BOkBad => ([(false, true)], false)
   end.
 
 Definition notify_panics (b : beh) : bool :=
@@ -247,18 +250,35 @@ Definition ctx_fits (t : param) (c : ctxv) : bool :=      (* reflect.Call's assi
 Definition arg_fits (t : param) (a : argv) : bool :=
   match a with ANil => true | AVal tid _ => tid =? p_tid t end.
 
+(* The completion function as the handler sees it: onceCBFunc(cbFunc).  [rp] = the caller's cbFunc
+   panics when handed (nil error, a result that cannot be serialised) - true for APIDispatcher's
+   closure (Service.Response panics on remote.Serialize's error), false for a plain recorder.
+   An attempt is skipped once a completion went through; an attempt in which cbFunc panics
+   re-arms the guard (cbFunc did not complete its caller) and the panic leaves the handler.
+   Result: (completions that ran, guard state, did a panic leave the handler). *)
+Fixpoint run_attempts (rp : bool) (done : bool) (atts : list (bool * bool))
+  : list ev * bool * bool :=
+  match atts with
+  | [] => ([], done, false)
+  | (e, bad) :: r =>
+      if done then run_attempts rp done r
+      else if rp && negb e && bad then ([], false, true)
+      else let '(evs, d, p) := run_attempts rp true r in (EvComplete e :: evs, d, p)
+  end.
+
 (* handler.Method.Func.Call(args) under SafeCall's deferred recover.
-   [cb] = the caller passed a completion function; for a request it reaches the handler and the
-   recover through onceCBFunc, so only the first attempt runs it. *)
-Definition safe_call (h : handler) (c : ctxv) (a : argv) (cb : bool) (b : beh) : list ev :=
+   [cb] = the caller passed a completion function. *)
+Definition safe_call_g (rp : bool) (h : handler) (c : ctxv) (a : argv) (cb : bool) (b : beh)
+  : list ev :=
   let m := h_meth h in
   if h_req h then
     if ctx_fits (h_ctx h) c && arg_fits (h_arg h) a && p_cbfit (in_ m 3) then
       let '(attempts, panics) := req_script b in
       if cb then
-        (* every attempt and the recover's completion go through the once-guard *)
+        let '(evs, done, p) := run_attempts rp false attempts in
+        (* recover: CheckInvokeCBFunc(guarded cbFunc, "panic in rpc") *)
         EvInvoke (m_uid m) (seen_of a)
-          :: map EvComplete (firstn 1 (attempts ++ (if panics then [true] else [])))
+          :: evs ++ (if (p || panics) && negb done then [EvComplete true] else [])
       else
         (* the handler holds a nil func: its first attempt panics; recover; nothing to complete *)
         [EvInvoke (m_uid m) (seen_of a)]
@@ -271,31 +291,31 @@ Definition safe_call (h : handler) (c : ctxv) (a : argv) (cb : bool) (b : beh) :
     else [].                                (* reflect.Call panics, recovered, nothing to complete *)
 
 (* APIContainer.CallMethod *)
-Definition call_method (cn : container) (method : str) (c : ctxv) (a : argv) (cb : bool) (b : beh)
-  : list ev :=
+Definition call_method_g (rp : bool) (cn : container) (method : str) (c : ctxv) (a : argv)
+  (cb : bool) (b : beh) : list ev :=
   match sget method (c_handlers cn) with
   | None => check_invoke cb true                       (* "can not find method" *)
   | Some h =>
-      if h_req h then safe_call h c a cb b
+      if h_req h then safe_call_g rp h c a cb b
       else if cb then []                               (* "call notify with cb": log, return  (F4) *)
-      else safe_call h c a cb b
+      else safe_call_g rp h c a cb b
   end.
 
 (* APICollection.Call *)
-Definition call (cs : smap container) (route : str) (c : ctxv) (a : argv) (cb : bool) (b : beh)
-  : list ev :=
+Definition call_g (rp : bool) (cs : smap container) (route : str) (c : ctxv) (a : argv) (cb : bool)
+  (b : beh) : list ev :=
   match split_route route with
   | None => check_invoke cb true                       (* "bat route" *)
   | Some (g, m) =>
       match sget g cs with
       | None => check_invoke cb true                   (* "can not find service" *)
-      | Some cn => call_method cn m c a cb b
+      | Some cn => call_method_g rp cn m c a cb b
       end
   end.
 
 (* CallWithSerialize *)
-Definition call_ser (cs : smap container) (s : ser) (route : str) (dec : list (Z * dres))
-  (c : ctxv) (cb : bool) (b : beh) : res :=
+Definition call_ser_g (rp : bool) (cs : smap container) (s : ser) (route : str)
+  (dec : list (Z * dres)) (c : ctxv) (cb : bool) (b : beh) : res :=
   match s with
   | SNil => Done (check_invoke cb true)                (* "serializer is nil" *)
   | _ =>
@@ -306,45 +326,119 @@ Definition call_ser (cs : smap container) (s : ser) (route : str) (dec : list (Z
           else
             match decode dec (p_tid t) with
             | DBad => Done (check_invoke cb true)      (* Unmarshal error *)
-            | DOk v => Done (call cs route c (AVal (p_tid t) v) cb b)
+            | DOk v => Done (call_g rp cs route c (AVal (p_tid t) v) cb b)
             end
       end
   end.
 
-(* ---- histories ---- *)
+(* callers whose completion function never panics (the harness's recorder) *)
+Definition safe_call := safe_call_g false.
+Definition call_method := call_method_g false.
+Definition call := call_g false.
+Definition call_ser := call_ser_g false.
+
+(* ---- actorex/service: Service.handleRequest + APIDispatcher.Dispatch / tryCall / tryCallCol ----
+   (service.go with hooks/C13-fix-request-deserialize.patch: a request whose body does not
+   deserialise is answered with an error - unless Dispatch has already answered it - instead of
+   panicking out of the actor) *)
+Inductive rsp :=
+| RspNoMethod               (* ServiceResponse{ErrCode: CodeErrString, ErrInfo: "no method: ..."} *)
+| RspDone (err : bool).     (* the response the completion closure sends *)
+
+Record dout := DO {
+  d_inv : list ev;          (* zoo methods that ran *)
+  d_rsp : list rsp;         (* responses sent to request.Sender, in order *)
+  d_fell : bool;            (* the request reached reqReceiver.ReceiveRequest *)
+  d_esc : bool              (* a panic left Service.Receive (the actor fails) *)
+}.
+
+Fixpoint only_inv (tr : list ev) : list ev :=
+  match tr with
+  | [] => []
+  | EvInvoke u s :: r => EvInvoke u s :: only_inv r
+  | EvComplete _ :: r => only_inv r
+  end.
+
+Fixpoint rsp_of (tr : list ev) : list rsp :=
+  match tr with
+  | [] => []
+  | EvInvoke _ _ :: r => rsp_of r
+  | EvComplete e :: r => RspDone e :: rsp_of r
+  end.
+
+(* tryCall: the first collection that has the route gets the call (proto serializer, the
+   dispatcher's RemoteContext); a notification (ReqId 0) is called without completion function *)
+Definition try_call (cols : list (smap container)) (isreq : bool) (route : str)
+  (dec : list (Z * dres)) (cx : ctxv) (b : beh) : option res :=
+  match find (fun cs => has_method cs route) cols with
+  | None => None
+  | Some cs => Some (call_ser_g true cs SProto route dec cx isreq b)
+  end.
+
+Definition handle_request (cols : list (smap container)) (rid : Z) (route : str)
+  (dec : list (Z * dres)) (rawok : bool) (cx : ctxv) (b : beh) : dout :=
+  let isreq := negb (rid =? 0) in                       (* NotifyReqID = 0 *)
+  (* remote.Deserialize(Body, Type); reqReceiver.ReceiveRequest *)
+  let fall (answered : bool) (rsps : list rsp) :=
+    if rawok then DO [] rsps true false
+    else DO [] (rsps ++ (if isreq && negb answered then [RspDone true] else [])) false false in
+  if is_empty route then fall false []                  (* request.Route == "": not dispatched *)
+  else
+    match try_call cols isreq route dec cx b with
+    | None => fall true (if isreq then [RspNoMethod] else [])   (* Dispatch: Response("no method"), false *)
+    | Some (Done tr) => DO (only_inv tr) (rsp_of tr) false false
+    | Some (Escaped tr) => DO (only_inv tr) (rsp_of tr) false true
+    end.
+
+(* ---- histories ----
+   Several collections (index k); a dispatcher is made over the listed ones, in that order. *)
 Inductive op :=
-| OReg (e : entry) (o : opts)                 (* col.Register(entry, options...) *)
-| OBuild                                      (* col.Build() *)
-| OHas (route : str)                          (* col.HasMethod(route) *)
-| OArgT (route : str)                         (* col.GetArgType(route) *)
-| OCallSer (s : ser) (route : str) (bytes : list Z) (dec : list (Z * dres))
-           (c : ctxv) (cb : bool) (b : beh)   (* CallWithSerialize(col, ctx, route, bytes, cb, s) *)
-| OCall (route : str) (a : argv) (c : ctxv) (cb : bool) (b : beh).   (* col.Call(ctx, route, arg, cb) *)
+| OReg (k : Z) (e : entry) (o : opts)         (* col[k].Register(entry, options...) *)
+| OBuild (k : Z)                              (* col[k].Build() *)
+| OHas (k : Z) (route : str)                  (* col[k].HasMethod(route) *)
+| OArgT (k : Z) (route : str)                 (* col[k].GetArgType(route) *)
+| OCallSer (k : Z) (s : ser) (route : str) (bytes : list Z) (dec : list (Z * dres))
+           (c : ctxv) (cb : bool) (b : beh)   (* CallWithSerialize(col[k], ctx, route, bytes, cb, s) *)
+| OCall (k : Z) (route : str) (a : argv) (c : ctxv) (cb : bool) (b : beh)   (* col[k].Call(ctx, route, arg, cb) *)
+| ODispatch (ks : list Z) (rid : Z) (route : str) (bytes : list Z) (dec : list (Z * dres))
+            (rawok : bool) (cx : ctxv) (b : beh).
+  (* a Service with NewDispatcher(col[ks]...) receives ServiceRequest{Sender: peer, ReqId: rid,
+     Route: route, Type: TestHello, Body: bytes}; dec = what the proto serializer makes of the
+     body per message type; rawok = remote.Deserialize(Body, Type) succeeds; cx = the dispatcher's
+     *RemoteContext *)
 
 Inductive obs :=
 | BUnit
 | BBool (b : bool)
 | BArg (t : option Z)             (* type token of the reflect.Type returned, None = nil *)
-| BCall (tr : list ev) (escaped : bool).
+| BCall (tr : list ev) (escaped : bool)
+| BDisp (inv : list ev) (rsps : list rsp) (fell : bool) (escaped : bool).
 
-Record st := S {
+Record cst := S {
   s_entries : list (entry * opts);     (* APIEntries.entries *)
   s_cs : smap container                (* APICollection.Containers *)
 }.
 
-Definition init : st := S [] [].
+Definition st := Z -> cst.
+Definition init : st := fun _ => S [] [].
+Definition upd (s : st) (k : Z) (v : cst) : st := fun j => if j =? k then v else s j.
 
 Definition obs_of_res (r : res) : obs :=
   match r with Done tr => BCall tr false | Escaped tr => BCall tr true end.
 
+Definition obs_of_dout (d : dout) : obs := BDisp (d_inv d) (d_rsp d) (d_fell d) (d_esc d).
+
 Definition step (s : st) (o : op) : st * obs :=
   match o with
-  | OReg e op_ => (S (s_entries s ++ [(e, op_)]) (s_cs s), BUnit)
-  | OBuild => (S (s_entries s) (build (s_entries s)), BUnit)
-  | OHas r => (s, BBool (has_method (s_cs s) r))
-  | OArgT r => (s, BArg (match get_arg_type (s_cs s) r with Some t => Some (p_tid t) | None => None end))
-  | OCallSer sr r _ dec c cb b => (s, obs_of_res (call_ser (s_cs s) sr r dec c cb b))
-  | OCall r a c cb b => (s, BCall (call (s_cs s) r c a cb b) false)
+  | OReg k e op_ => (upd s k (S (s_entries (s k) ++ [(e, op_)]) (s_cs (s k))), BUnit)
+  | OBuild k => (upd s k (S (s_entries (s k)) (build (s_entries (s k)))), BUnit)
+  | OHas k r => (s, BBool (has_method (s_cs (s k)) r))
+  | OArgT k r =>
+      (s, BArg (match get_arg_type (s_cs (s k)) r with Some t => Some (p_tid t) | None => None end))
+  | OCallSer k sr r _ dec c cb b => (s, obs_of_res (call_ser (s_cs (s k)) sr r dec c cb b))
+  | OCall k r a c cb b => (s, BCall (call (s_cs (s k)) r c a cb b) false)
+  | ODispatch ks rid r _ dec rawok cx b =>
+      (s, obs_of_dout (handle_request (map (fun k => s_cs (s k)) ks) rid r dec rawok cx b))
   end.
 
 Fixpoint run_from (s : st) (ops : list op) : st * list obs :=
